@@ -452,7 +452,7 @@ def r4_selectors(ctx):
             def rules_for(rv, a):
                 asked.append((rv, a))
                 return C("Ok", A("rules"))
-            bi = {"get_plural_rules": rules_for, "category_for": (lambda rv, a, cat=cat: C(cat))}
+            bi = {"get_plural_rules": rules_for, "category_for": (lambda rv, a, cat=cat: C(cat) if rv == A("rules") else NotImplemented)}
             v = AEval(funcs=funcs, builtins=bi).run_fn(fn, [this, C("Literal", C("Unsigned", I(3))), A("args"), A("foreign_key"), A("locale"), A("key_path")])
             got[cat] = v[1] if not isinstance(v, str) and v[0] == "atom" else (v if isinstance(v, str) else absint.fmt(v))
         own_rules = bool(asked) and all(rv == this and a and a[0] == A("locale") for rv, a in asked)
